@@ -6,6 +6,9 @@
 (*   write   the tree was written (files > 0)                              *)
 (*   verify  tools.compliant._scan / _verify in-process                    *)
 (*   cli     python -m dawgie.tools.compliant as a process (sample)        *)
+(*   cli_env the same command in an environment where a decoy copy of the  *)
+(*           same base package (descriptor t.dec, opposite compliance) is  *)
+(*           importable, listed at t.at of PYTHONPATH (sample)             *)
 (*   sched   dag.Construct, schedule.build, periodics, organize,           *)
 (*           next_job_batch on the package the gate accepted               *)
 (* Every clause of C16 is evaluated here by TLC; a failing clause is       *)
@@ -25,6 +28,9 @@ tvars == <<tid, l, bad, drift>>
 
 DescOf(t) == [kinds |-> ToSet(t.d.kinds), shape |-> t.d.shape, vals |-> t.d.vals, evs |-> t.d.evs, viol |-> t.d.viol,
               pos |-> [k |-> t.d.pos.k, e |-> t.d.pos.e]]
+DescJ(j) == [kinds |-> ToSet(j.kinds), shape |-> j.shape, vals |-> j.vals, evs |-> j.evs, viol |-> j.viol,
+             pos |-> [k |-> j.pos.k, e |-> j.pos.e]]
+EnvOf(t) == [sub |-> DescOf(t), dec |-> DescJ(t.dec), at |-> t.at]     \* meaningful on traces with t.at # "-"
 Rec(t, i) == Traces[t].steps[i]
 FailClause(name, ok) == IF ok THEN {} ELSE {name}
 
@@ -36,6 +42,7 @@ Claimed(d) == d.viol \notin UnclaimedNames
 Verdicts(d, r) ==
     CASE r.ev = "verify" -> {r.obs.v_list} \cup (IF d.kinds # {} THEN {r.obs.v_scan} ELSE {})
       [] r.ev = "cli"    -> IF r.obs.cli_run THEN {r.obs.cli_rc = 0} ELSE {}
+      [] r.ev = "cli_env" -> IF r.obs.cli_run THEN {r.obs.cli_rc = 0} ELSE {}   \* d is the SUBMITTED package: CmdAccept(c) = Accept(d)
       [] OTHER           -> {}
 
 StepClauses(t, d, r) ==
@@ -58,18 +65,23 @@ Drift(d, r) ==
     /\ r.ev = "verify"
     /\ \/ r.obs.v_list # ImplAccept(d)
        \/ (d.viol # "none" /\ ~r.obs.v_list /\ Owners(d) \cap ToSet(r.obs.fired) = {})
+(* the command in an environment with a decoy: exit status against the transcription of its import path *)
+EnvDrift(t, r) == r.ev = "cli_env" /\ r.obs.cli_run /\ (r.obs.cli_rc = 0) # ImplCmdAccept(EnvOf(t))
 
 Foreign(d) == ~WellFormed(d)     \* not a case of the space TLC enumerates (Descriptors \cup Observed)
+ForeignEnv(t) == \/ t.at = "-" /\ \E i \in 1..Len(t.steps) : t.steps[i].ev = "cli_env"
+                 \/ t.at # "-" /\ ~EnvWellFormed(EnvOf(t))            \* not an environment case of Gate!EnvCasesOf
 
 Eval(t, i) ==
     LET tr == Traces[t]
         d  == DescOf(tr)
         r  == Rec(t, i) IN
     /\ bad' = StepClauses(tr, d, r)
-    /\ drift' = Drift(d, r)
+    /\ drift' = (Drift(d, r) \/ EnvDrift(tr, r))
     /\ (bad' # {} => PrintT(<<"CLAUSE", tr.tid, i, r.ev, bad'>>))
-    /\ (drift' => PrintT(<<"DRIFT", tr.tid, i, r.ev, r.obs.v_list, ImplAccept(d), ToJson(r.obs.fired)>>))
-    /\ ((i = 1 /\ Foreign(d)) => PrintT(<<"FOREIGN", tr.tid>>))
+    /\ (Drift(d, r) => PrintT(<<"DRIFT", tr.tid, i, r.ev, r.obs.v_list, ImplAccept(d), ToJson(r.obs.fired)>>))
+    /\ (EnvDrift(tr, r) => PrintT(<<"DRIFT", tr.tid, i, r.ev, r.obs.cli_rc = 0, ImplCmdAccept(EnvOf(tr)), ToJson(r.obs.fired)>>))
+    /\ ((i = 1 /\ (Foreign(d) \/ ForeignEnv(tr))) => PrintT(<<"FOREIGN", tr.tid>>))
     /\ ((~Claimed(d) /\ r.ev = "verify") => PrintT(<<"OBSERVE", tr.tid, d.viol, d.pos.k, d.pos.e, r.obs.v_list>>))
 
 TraceInit ==
